@@ -52,7 +52,7 @@ def convLine (kind : String) (rest : List String) : String :=
     match mkLayoutN kind ssp es ss pv, parseLKind dk with
     | some src, some d =>
       if (plainToks rest).contains "pre" then
-        s!"ok {fmtB (decide (ConvPreG src d sps) && (convertG src d sps).isSome)}"
+        (if (convertG src d sps).isNone then "none" else s!"ok {fmtB (decide (ConvPreG src d sps))}")
       else
         match convertG src d sps with
         | none => "no-ctor"
